@@ -535,7 +535,7 @@ struct Engine : public vf::Engine {
         const Group& H = d.groups.empty() ? noHistory : d.groups[0];
         bool isAcc = d.profile == "accounting", isDia = d.profile == "diagnostics", isOom = d.profile == "oom", isSnd = d.profile == "soundness", isMis = d.profile == "misuse";
         (void)isAcc; (void)isSnd; (void)isMis;
-        for (size_t oi = 0; oi < H.ops.size() && r.viols.empty(); oi++) {      // the history stops at the first violation: later differences would be its consequences
+        for (size_t oi = 0; oi < H.ops.size() && !r.hasWanted(); oi++) {      // the history stops at the first violation of a property that was asked about: later differences would be its consequences
             const Op& o = H.ops[oi];
             const char* on = hs::kindName(o.kind);
             CTX.reports.clear();
